@@ -114,6 +114,17 @@ def run(adds, with_unversioned, save_load, bundlify=False):
             res = sorted(norm(o) for o in s.query([Filter("type", "=", "identity"), Filter("modified", ">", MODS[0])]))
             if res != sorted(norm(ver(i, m)) for (i, m) in model if i in (0, 1) and m > 0):
                 return False
+            # properties that hold their default value are not written to disk, but a query on them still finds the object
+            res = sorted(norm(o) for o in s.query([Filter("revoked", "=", False)]))
+            if res != sorted(norm(ver(i, m)) for (i, m) in model if i in (0, 1, 3)):
+                return False
+            res = sorted(norm(o) for o in s.query([Filter("revoked", "!=", True), Filter("type", "!=", "tool")]))
+            if res != sorted(norm(ver(i, m)) for (i, m) in model if i in (0, 1)):
+                return False
+            # an id whitelist that spans two types, each possibly with several versions
+            res = sorted(norm(o) for o in s.query([Filter("id", "in", [IDS[0], IDS[3], IDS[2]])]))
+            if res != sorted(norm(ver(i, m)) for (i, m) in model if i in (0, 2, 3)):
+                return False
             if with_unversioned:
                 for u in (UNVERSIONED, UNVERSIONED2):
                     g = s.get(u["id"])
